@@ -312,6 +312,10 @@ def read_context_miss(pi: int, has_task: bool, ti: int) -> bool:
         return False
     if pi == 0:
         return _b64.b64decode(got).decode("utf-8") == tok
+    if pi == 4:
+        # the whole $$.Task object: its Token member is the same opaque token that $$.Task.Token selects
+        return type(got) is dict and list(got) == ["Token"] and _b64.b64decode(got["Token"]).decode("utf-8") == tok \
+            and got["Token"] == sp.apply_path(d, ctx, "$$.Task.Token")
     return got == want
 
 
